@@ -9,12 +9,12 @@ import numlib as nl
 
 ID = "C08"
 MODULES = ["Series", "Ins"]
-LEAN_TARGETS = ["Props.C08"]
+LEAN_TARGETS = ["Props.C08", "Props.C08U"]
 ANCHORS = ["cyecca/lie/group_se23.py", "cyecca/models/rdd2.py"]
 MISSING = [
-    "uniqueness of the ODE solution (ODE_solution_unique) is not invoked: the theorems identify the output with the explicit "
-    "closed-form flow R0 exp(w^ t), v0 - g e3 t + R0 t V1(wt) a, p0 + v0 t - g e3 t^2/2 + R0 t^2 V2(wt) a, whose derivatives (HasDerivAt) and "
-    "semigroup law (dt1 then dt2 = dt1 + dt2, Lib/Flow.flow_semigroup, lifted to the translated propagator on the closed-form cells) ARE theorems",
+    "uniqueness IS a theorem now (Lib/FlowUnique: any solution of p' = v, v' = R a - g e3, R' = R [w]x with the given initial values is the closed-form "
+    "flow; Props/C08U: the propagator returns that solution at dt) — on the closed-form cell and for w != 0; w = 0 (pure translation) is covered by the "
+    "core / dt = 0 theorems and the search",
     "Taylor cells of the coefficients: bound, not equality — numeric search only",
 ]
 
